@@ -55,8 +55,7 @@ def okStep (s : St) (w : World) (op : Op) : Bool :=
       atHome s o &&
       (!o.node || n.node) && (!o.term || n.term) &&
       (!n.term || o.term || !isAssigned s (resolve s o) o.id) &&
-      (!w.resvd.contains o.id || (resolve s n == resolve s o && n.req == o.req)) &&
-      (!(resolve s o == dflt && resolve s n == dflt) || (n.label == o.label && n.ns == o.ns && n.req == o.req)))
+      (!w.resvd.contains o.id || resolve s n == resolve s o))
   | .pdel p => w.find p.id == some p
   | .resv p => w.find p.id == some p && atHome s p && !p.node && !p.term
   | .unresv p => w.find p.id == some p && atHome s p && w.resvd.contains p.id && !p.node
